@@ -7,16 +7,24 @@ VARIABLES tid, l
 tvars == <<vars, tid, l>>
 TL == TraceLines[tid].ev
 TConfigs == {}
-TOps == {"coin", "service", "event", "press", "drain", "free", "credit", "toggle", "reset", "advidle"}
+TOps == {"coin", "service", "event", "press", "press2", "press2both", "drain", "free", "credit", "toggle", "reset", "advidle"}
 \* deviation sets used to classify traces the intended model (TDev0) rejects
 TDev0 == {}
+TDevTick == {"SameTickGate"}
 TDevCap == {"CapOverwritten"}
 TDevDup == {"DupHandlers"}
 TDevBoot == {"BootFreeNoUnits"}
+TDevTickCap == {"SameTickGate", "CapOverwritten"}
+TDevTickDup == {"SameTickGate", "DupHandlers"}
+TDevTickBoot == {"SameTickGate", "BootFreeNoUnits"}
 TDevCapDup == {"CapOverwritten", "DupHandlers"}
 TDevCapBoot == {"CapOverwritten", "BootFreeNoUnits"}
 TDevDupBoot == {"DupHandlers", "BootFreeNoUnits"}
-TDevAll == {"CapOverwritten", "DupHandlers", "BootFreeNoUnits"}
+TDevTickCapDup == {"SameTickGate", "CapOverwritten", "DupHandlers"}
+TDevTickCapBoot == {"SameTickGate", "CapOverwritten", "BootFreeNoUnits"}
+TDevTickDupBoot == {"SameTickGate", "DupHandlers", "BootFreeNoUnits"}
+TDevCapDupBoot == {"CapOverwritten", "DupHandlers", "BootFreeNoUnits"}
+TDevTickCapDupBoot == {"SameTickGate", "CapOverwritten", "DupHandlers", "BootFreeNoUnits"}
 TInit == /\ tid \in 1..Len(TraceLines) /\ l = 1 /\ cfg = TraceLines[tid].cfg /\ now = 0 /\ nops = 0
          /\ act = [op |-> "init"]
          /\ LET c == TraceLines[tid].cfg
@@ -37,6 +45,7 @@ Step(e) ==
           \/ e.op = "service" /\ Service
           \/ e.op = "event" /\ Event
           \/ e.op = "press" /\ Press
+          \/ e.op = "press2" /\ Press2
           \/ e.op = "drain" /\ Drain
           \/ e.op = "free" /\ EnableFree
           \/ e.op = "credit" /\ EnableCredit
